@@ -13,6 +13,14 @@
 //     Every call logs Begin/End with a deep digest of all inputs (every proof slice, spare capacity, unexported
 //     fields) and a digest of the result; audits are logged while nothing runs.  TLC validates the log against
 //     PurityTrace.  The per-transaction verdict is logged under the key of the block verdict.
+//     2b. "Obtained how" is not part of a key: a copy of a block the Ledger specification accepts (codec round trip through
+//     the multiproof form, JSON, copy operations) is filed under the key of the ORIGINAL even when its content turns out
+//     different, so verdict, state and update must be those of the original (key obtained-how/<way>).  Fixed behaviours
+//     (fixed.go) supply, at every seed, blocks that reference one accumulator element more than once (two revisions of
+//     one contract, revision then renewal, one chain index element under two storage proofs) and v1 signatures with
+//     field-by-field coverage (State.PartialSigHash); they run in the goroutine pool of their shape, always with 8 or 32
+//     callers.  Every pooled hashing entry point (hashes.go) is called on the block and on a synthetic set once before
+//     and then during the concurrent phase of every case (fn "hashes").
 //  3. Every value the library's copy and decode operations hand back — Copy/Share/Move of every element kind,
 //     V2Transaction.DeepCopy (every resolution kind; the storage proof's history proof), the binary decoders (block
 //     through the multiproof form V2Block / V2BlockData / V2TransactionsMultiproof, plain DecodeFrom of transactions,
@@ -185,6 +193,10 @@ type totals struct {
 	applyGuardNote                       string
 	upd                                  updStats
 	fixedRun, fixedOK                    int
+	differs                              map[string]int // copies of accepted blocks whose content is not the original's
+	refs                                 map[string]int // cases by class of repeated element reference
+	partialCases, partialSigs            int            // cases (and signatures) with field-by-field v1 coverage
+	partialByG                           map[int]int
 }
 
 type env struct {
@@ -205,6 +217,12 @@ func build(sim *chain.Sim, st chain.Step) (*input, *chain.BlockCtx, error) {
 	for _, t := range st.Txs {
 		if err := ctx.Add(t); err != nil {
 			return nil, nil, fmt.Errorf("%s: %w", t.Tag, err)
+		}
+		if t.Ver == 1 && strings.HasSuffix(t.Tag, partialMark) {
+			// the signatures name every field instead of setting WholeTransaction (ids do not depend on signatures)
+			if err := resignPartial(sim, &ctx.V1[len(ctx.V1)-1]); err != nil {
+				return nil, nil, fmt.Errorf("%s: %w", t.Tag, err)
+			}
 		}
 	}
 	bs := sim.Supplement(ctx.V1)
@@ -267,6 +285,9 @@ func (e *env) runBehaviour(shape string, p chain.Params, beh *chain.Behaviour) (
 		}
 		n := int(e.nCase.Add(1))
 		g := widths[n%len(widths)]
+		if isFixed(beh) && len(widths) > 1 {
+			g = widths[len(widths)-1-n%2] // the fixed behaviours always run concurrently (the two largest widths)
+		}
 		ci := &caseInfo{n: n, g: g, params: p, beh: beh.Steps[:i+1], shape: shape, expect: st.Verdict, v1: len(in.B.Transactions), v2: len(in.B.V2Transactions())}
 		// a case that was already run twice (behaviours share prefixes) is not run a third time
 		key, kerr := contentKey(in)
@@ -410,6 +431,17 @@ func (t *totals) addCase(ci *caseInfo, cs caseStats, st chain.Step) {
 	for k, v := range cs.panics {
 		t.panics[k] += v
 	}
+	for k, v := range cs.differs {
+		t.differs[k] += v
+	}
+	for k := range cs.refs {
+		t.refs[k]++
+	}
+	if cs.partial > 0 {
+		t.partialCases++
+		t.partialSigs += cs.partial
+		t.partialByG[ci.g]++
+	}
 	if cs.applyNote != "" && t.applyGuardNote == "" {
 		t.applyGuardNote = cs.applyNote
 	}
@@ -443,6 +475,12 @@ func (e *env) runShape(name string, num, depth int) {
 	if len(behs) > num {
 		behs = behs[:num]
 	}
+	// the fixed behaviours of this shape run among the drawn ones, spread over the run
+	fixed := fixedFor(name)
+	for i, f := range fixed {
+		at := (i + 1) * len(behs) / (len(fixed) + 1)
+		behs = append(behs[:at], append([]chain.Behaviour{f}, behs[at:]...)...)
+	}
 	var wg sync.WaitGroup
 	sem := make(chan struct{}, 8)
 	for i := range behs {
@@ -451,7 +489,18 @@ func (e *env) runShape(name string, num, depth int) {
 		go func(b *chain.Behaviour) {
 			defer wg.Done()
 			defer func() { <-sem }()
-			e.runBehaviour(name, cfg.P, b)
+			done := e.runBehaviour(name, cfg.P, b)
+			if isFixed(b) {
+				e.t.mu.Lock()
+				e.t.fixedRun++
+				if done == len(b.Steps) {
+					e.t.fixedOK++
+				}
+				e.t.mu.Unlock()
+				if done != len(b.Steps) {
+					e.c.Infra("fixed behaviour %s: only %d of %d steps were built and accepted by the real code", b.Hash, done, len(b.Steps))
+				}
+			}
 		}(&behs[i])
 	}
 	wg.Wait()
@@ -481,7 +530,7 @@ func work() {
 		replay(c)
 		return
 	}
-	c.Rule("Cases: every block (with its supplement and parent state) of TLC-simulated Ledger behaviours on three network shapes — valid blocks and blocks ending in a defective transaction of the families unbalanced, auth, reuse, intx, timing, revision, proof, formation; reverts and re-applies included — taken before anything has validated it. Per case 6 entry points (validate, per-transaction path, element proofs, apply, revert, encode) x 5 memories (original twice, decoded via multiproof, Share()d proofs, DeepCopy/Copy, JSON) run from G goroutines (G cycles through 1, 2, 8, 32), under the race detector. For every valid block with non-ephemeral elements additionally 2 update experiments (the block's own update; an empty next block's) x 6 copies of its element proofs obtained differently (independent allocation, multiproof decode, plain decode, JSON, DeepCopy/Copy, Share()d then copied): one UpdateElementProof call per element and copy (logged as M with audits of the neighbouring cells, the other copies and the source), then ValidateTransactionElements / leaf membership of every updated copy. Four fixed behaviours (v2 storage proof among payments, renewal, expiration, v1 contract life cycle) run besides the drawn ones. evaluations = calls executed and logged (entry point calls + UpdateElementProof calls + validations after update); distinct_nontrivial = distinct keys <<function, content hash of inputs>> that were called at least twice (the agreement clause was exercised), from different goroutines or different copies. The address probes of copy/decode results are counted in coverage (copy_operations_probed), not in evaluations.")
+	c.Rule("Cases: every block (with its supplement and parent state) of TLC-simulated Ledger behaviours on three network shapes — valid blocks and blocks ending in a defective transaction of the families unbalanced, auth, reuse, intx, timing, revision, proof, formation; reverts and re-applies included — taken before anything has validated it. Per case 6 entry points (validate, per-transaction path, element proofs, apply, revert, encode) x 5 memories (original twice, decoded via multiproof, Share()d proofs, DeepCopy/Copy, JSON; a copy of a block the specification accepts is filed under the key of the original even when its content differs) plus the call of every pooled hashing entry point (block contents and a synthetic set; once sequentially before the concurrent phase, then concurrently on every memory) run from G goroutines (G cycles through 1, 2, 8, 32), under the race detector. For every valid block with non-ephemeral elements additionally 2 update experiments (the block's own update; an empty next block's) x 6 copies of its element proofs obtained differently (independent allocation, multiproof decode, plain decode, JSON, DeepCopy/Copy, Share()d then copied): one UpdateElementProof call per element and copy (logged as M with audits of the neighbouring cells, the other copies and the source), then ValidateTransactionElements / leaf membership of every updated copy. Nine fixed behaviours (v2 storage proof among payments, renewal, expiration, v1 contract life cycle; two revisions of one contract in one block, revision then renewal, two storage proofs under one chain index element; v1 signatures with field-by-field coverage alone and followed by v2 blocks) run among the drawn ones of their shape, with 8 or 32 callers. evaluations = calls executed and logged (entry point calls + UpdateElementProof calls + validations after update); distinct_nontrivial = distinct keys <<function, content hash of inputs>> that were called at least twice (the agreement clause was exercised), from different goroutines or different copies. The address probes of copy/decode results are counted in coverage (copy_operations_probed), not in evaluations.")
 	c.Assume("the digest (reflection walk over every field, slice up to capacity, pointer and interface; sha256) changes whenever memory reachable from the inputs changes")
 	c.Assume("data races are found by the Go race detector while the trace is recorded, not by the model")
 	c.Assume("honest v1 supplements (chain harness store)")
@@ -510,13 +559,12 @@ func work() {
 
 	// 2. copy operations on fully populated values
 	e := &env{c: c, rec: &recorder{}, cb: newCopyBook(), t: &totals{byG: map[int]int{}, variants: map[string]int{}, sameKey: map[string]int{},
-		panics: map[string]int{}, tags: map[string]int{}, foreign: map[string]int{}, keyRuns: map[string]int{}}}
+		panics: map[string]int{}, tags: map[string]int{}, foreign: map[string]int{}, keyRuns: map[string]int{}, differs: map[string]int{}, refs: map[string]int{}, partialByG: map[int]int{}}}
 	probeElements(e.cb)
 
 	// 3. the real code under concurrency
 	num, depth := c.Pick(50, 1000), 56
 	t0 := time.Now()
-	e.runFixed()
 	for _, shape := range []string{"v1only", "mixed", "v2only"} {
 		e.runShape(shape, num, depth)
 	}
@@ -556,6 +604,41 @@ func work() {
 	}
 	c.Count(int64(t.calls+t.upd.updates+t.upd.validated), int64(nontriv))
 	c.Cov("fixed_behaviours_accepted", fmt.Sprintf("%d of %d", t.fixedOK, t.fixedRun))
+	if t.fixedRun != len(fixedBehaviours()) {
+		c.Infra("vacuity: %d of %d fixed behaviours ran", t.fixedRun, len(fixedBehaviours()))
+	}
+	c.Cov("copies_of_accepted_blocks_without_the_original_content_filed_under_the_original_key", t.differs)
+	c.Cov("cases_with_repeated_references_to_one_element", t.refs)
+	for _, k := range []string{"revision+revision", "resolution+revision", "proof-index+proof-index"} {
+		if t.refs[k] == 0 {
+			c.Infra("vacuity: no accepted block whose v2 part references one accumulator element twice as %s went through the multiproof codec", k)
+		}
+	}
+	c.Cov("cases_with_v1_signatures_of_partial_coverage", t.partialCases)
+	c.Cov("v1_signatures_of_partial_coverage", t.partialSigs)
+	c.Cov("cases_with_v1_signatures_of_partial_coverage_by_goroutines", t.partialByG)
+	concurrentPartial := 0
+	for g, n := range t.partialByG {
+		if g >= 2 {
+			concurrentPartial += n
+		}
+	}
+	if t.partialCases == 0 || (concurrentPartial == 0 && os.Getenv("C09_WIDTHS") == "") {
+		c.Infra("vacuity: blocks with v1 signatures of partial coverage: %d cases, %d of them validated concurrently", t.partialCases, concurrentPartial)
+	}
+	hashCalls.mu.Lock()
+	c.Cov("pooled_hashing_entry_points_called_before_the_concurrent_phase", hashCalls.before)
+	c.Cov("pooled_hashing_entry_points_called_during_the_concurrent_phase", hashCalls.during)
+	c.Cov("PartialSigHash_of_simulated_blocks_before_and_during", []int{hashCalls.realPartialBefore, hashCalls.realPartialDuring})
+	for _, k := range hashEntryPoints {
+		if hashCalls.before[k] == 0 || hashCalls.during[k] == 0 {
+			c.Infra("vacuity: pooled hashing entry point %s called %d times before and %d times during the concurrent phases", k, hashCalls.before[k], hashCalls.during[k])
+		}
+	}
+	if hashCalls.realPartialBefore == 0 || hashCalls.realPartialDuring == 0 {
+		c.Infra("vacuity: PartialSigHash on signatures of simulated blocks: %d before, %d during the concurrent phases", hashCalls.realPartialBefore, hashCalls.realPartialDuring)
+	}
+	hashCalls.mu.Unlock()
 	c.Cov("update_experiments", t.upd.runs)
 	c.Cov("update_calls_UpdateElementProof", t.upd.updates)
 	c.Cov("update_cells_watched", t.upd.cells)
@@ -1017,7 +1100,8 @@ func describe(lines []Event, r reject) described {
 				break
 			}
 		}
-		if first != nil && first.call != nil && first.call.fn != info.fn {
+		eitherDiffers := info.differs || (first != nil && first.call != nil && first.call.differs)
+		if first != nil && first.call != nil && first.call.fn != info.fn && !eitherDiffers {
 			d.key = "txnpath-verdict-differs-from-block-verdict"
 			d.what = fmt.Sprintf("validating the transactions one at a time gives %q where ValidateBlock gives %q (or vice versa) on equal inputs (%s: %s, %s: %s)", ev.Res, first.Res, first.call.fn, first.Res, info.fn, ev.Res)
 		} else {
@@ -1034,6 +1118,15 @@ func describe(lines []Event, r reject) described {
 				fr = first.Res
 			}
 			d.what = fmt.Sprintf("%s returned %q and %q for inputs with the same content (copies: %s; %d goroutine(s))", info.fn, fr, ev.Res, other, info.cs.g)
+			if info.differs || (first != nil && first.call != nil && first.call.differs) {
+				// one defect, one key: named by the way of obtaining the block that does not preserve it
+				how := info.kind
+				if !info.differs {
+					how = first.call.kind
+				}
+				d.key = "obtained-how/" + how
+				d.what = fmt.Sprintf("%s returned %q and %q for one block obtained in two ways (copies: %s; %d goroutine(s)): the copy does not carry the content of the block it was obtained from (its full encoding differs), so verdict and state depend on how the block was obtained", info.fn, fr, ev.Res, other, info.cs.g)
+			}
 		}
 	case "result-aliases-input-proof":
 		d.key = "result-aliases-input-proof/" + info.fn
